@@ -102,6 +102,53 @@ def denOps (root : Node) (strict : Bool) : List Op → Pos → Except Err (List 
     if c == some 0 then .error .value
     else flatMapM (denOps root strict r) ((pySlice (kidsAt root el).length a b c).map (fun i => el ++ [i]))
 
+/-! ## which error, when several steps of one evaluation fail
+
+`denOps` and `denote` say *that* an evaluation raises whenever some step on some selected element
+fails; when a strict lookup fails on one element and a slice step written as 0 is reached on
+another, they do not say which of the two exceptions is the one raised.  `denOrd` does: every error
+carries the number of slice steps passed before it (its depth); an error at a smaller depth comes
+before one at a larger depth, and two errors at the same depth come in sequence order.  (The
+evaluator works through the matches of one slice step completely before it continues with any of
+their children — `evalOps_denotes_gen`.) -/
+
+/-- an outcome whose error remembers the depth (number of slice steps passed) at which it arose -/
+inductive Ranked
+  | ok (l : List Pos)
+  | err (depth : Nat) (e : Err)
+  deriving DecidableEq, Repr
+
+/-- the outcomes of two siblings, the first one earlier in sequence order: any error beats success;
+    of two errors the one at the smaller depth, on a tie the earlier one -/
+def Ranked.merge : Ranked → Ranked → Ranked
+  | .ok a, .ok b => .ok (a ++ b)
+  | .ok _, .err d e => .err d e
+  | .err d e, .ok _ => .err d e
+  | .err d e, .err d' e' => if d' < d then .err d' e' else .err d e
+
+def flatMapR (f : Pos → Ranked) : List Pos → Ranked
+  | [] => .ok []
+  | x :: xs => (f x).merge (flatMapR f xs)
+
+def Ranked.forget : Ranked → Except Err (List Pos)
+  | .ok l => .ok l
+  | .err _ e => .error e
+
+/-- the depth-first reading `denOps` with the precedence of errors made explicit; `d` = slice
+    steps passed so far -/
+def denOrd (root : Node) (strict : Bool) : List Op → Nat → Pos → Ranked
+  | [], _, el => .ok [el]
+  | .top :: r, d, _ => denOrd root strict r d []
+  | .up :: r, d, el => denOrd root strict r d el.dropLast
+  | .here :: r, d, el => denOrd root strict r d el
+  | .name s :: r, d, el =>
+    match indexAt root el s with
+    | some i => denOrd root strict r d (el ++ [i])
+    | none => if strict then .err d .lookup else .ok []
+  | .slice a b c :: r, d, el =>
+    if c == some 0 then .err d .value
+    else flatMapR (denOrd root strict r (d + 1)) ((pySlice (kidsAt root el).length a b c).map (fun i => el ++ [i]))
+
 /-- the `single=` table of `find` -/
 def singleOf (strict : Bool) (r : Except Err (List Pos)) : FindRes :=
   match r with
